@@ -296,6 +296,9 @@ pub fn gen_c12(run: &mut Run, seed: u64, thorough: bool) {
                     _ => {
                         // re-approve positive amounts with the (now possibly past) expiration
                         t.run.op(&format!("tk.approve {} {} 5 53 {}", a.tok(), b.tok(), a.tok()), &format!("reapprove-at-exp{:+}", s as i64 - 53));
+                        // the smallest positive amount counts as positive
+                        t.run.op(&format!("tk.approve {} {} 1 53 {}", a.tok(), b.tok(), a.tok()), &format!("reapprove1-at-exp{:+}", s as i64 - 53));
+                        t.run.op(&format!("tk.allowance {} {}", a.tok(), b.tok()), "q");
                         t.run.op(&format!("tk.approve {} {} 0 53 {}", a.tok(), b.tok(), a.tok()), &format!("reapprove0-at-exp{:+}", s as i64 - 53));
                     }
                 }
